@@ -140,6 +140,31 @@ def env_rule_software(rep, ws, rule, where='src/Imath/half.h'):
             rep.ob('%s[%s]: integer only' % (fn, bname), rule, VIOLATED if hit is not None else HOLDS,
                    'the %s back-end computes with a floating-point operation (%s): the result then depends on the caller\'s floating-point environment (denormals-are-zero / flush-to-zero turn subnormal values into zero)' % (bname, T.show(hit, 3)[:120]) if hit is not None else 'bit operations only', where, nontrivial=False)
 
+def fpexc_rule(rep, ws, rule, where='src/Imath/half.h'):
+    """IMATH_HALF_ENABLE_FP_EXCEPTIONS is a documented build option of the bit-shift conversion: it raises FE_OVERFLOW /
+    FE_UNDERFLOW and nothing else.  The value graph of each conversion function compiled with the option (table and
+    no-table build, C11 and C++17) is the graph compiled without it - feraiseexcept is an effect, not a value."""
+    n = 0
+    for bname, flags in BACKENDS[:2]:
+        for lang, std, src in (LANGS[0], LANGS[2]):
+            try:
+                g = []
+                for opt in ([], ['-DIMATH_HALF_ENABLE_FP_EXCEPTIONS']):
+                    mod = ws.module('c02_fpexc_%s_%s_%d' % (bname, std.replace('+', 'p'), len(opt)), src, lang=lang, std=std, extra=flags + opt, prefixes=('w_',))
+                    I = vg.Interp(mod)
+                    g.append((hoist(I.run('w_f2h').ret()), hoist(I.run('w_h2f').ret())))
+            except (build.BuildError, vg.Unsupported) as e:
+                rep.ob('FP-exceptions build[%s,%s]' % (bname, std), rule, UNDECIDED, str(e)[:300], where); continue
+            for i, fn in enumerate(('imath_float_to_half', 'imath_half_to_float')):
+                n += 1
+                same = g[0][i] is g[1][i]
+                det = ''
+                if not same:
+                    # name a cell: the first path on which the two graphs differ
+                    det = 'with IMATH_HALF_ENABLE_FP_EXCEPTIONS the conversion returns %s, without it %s' % (T.show(g[1][i], 5)[:220], T.show(g[0][i], 5)[:220])
+                rep.ob('%s[%s,%s]: FP-exceptions build == plain build' % (fn, bname, std), rule, HOLDS if same else VIOLATED, det, where, nontrivial=False)
+    return n
+
 def main(rep, ws, tier):
     ws.configure()
     graphs = {}
@@ -190,6 +215,7 @@ def main(rep, ws, tier):
                 rep.ob('%s[%s,%s]: integer only' % (fn, bname, std), 'R02.env', VIOLATED if hit is not None else HOLDS,
                        'the %s back-end computes with a floating-point operation (%s): its result then depends on the floating-point environment of the caller - with denormals-are-zero or flush-to-zero set (any program linked with -ffast-math) subnormal values come out as zero, while the table and the F16C instruction are unaffected' % (bname, T.show(hit, 3)[:120]) if hit is not None else
                        'bit operations only (the float is only reinterpreted)', where, nontrivial=False)
+    fpexc_rule(rep, ws, 'R02.fpexc')
     # half.cpp defines the table iff !NO_LOOKUP_TABLE
     try:
         bc = ws.compile_file('c02_half_notable', build.REPO + '/src/Imath/half.cpp', extra=['-DIMATH_HALF_NO_LOOKUP_TABLE'])
